@@ -1,0 +1,28 @@
+//go:build verif
+
+// Package verifhook provides passive instrumentation points for external
+// verification tooling. The hooks never acquire locks or order anything in the
+// program; they only report to a handler installed by the verification harness.
+package verifhook
+
+// Handler is installed by the verification harness before any instrumented
+// goroutine is started. nil means: do nothing.
+var Handler func(name string)
+
+// AccessHandler is installed by the verification harness. nil means: do nothing.
+var AccessHandler func(obj interface{}, field string, write bool)
+
+// Point marks a named place in the code.
+func Point(name string) {
+	if h := Handler; h != nil {
+		h(name)
+	}
+}
+
+// Access marks a read (write=false) or write (write=true) of a named piece of
+// shared state belonging to obj.
+func Access(obj interface{}, field string, write bool) {
+	if h := AccessHandler; h != nil {
+		h(obj, field, write)
+	}
+}
